@@ -347,3 +347,76 @@ def tables_diff(golden_path, current_path, limit=12):
                 out.append("...")
                 return out
     return out
+
+
+# ---------------------------------------------------------------------------
+# coverage extensions: class strings, memory tier names, type_sscanf_as_depth
+def clsweep_cases():
+    """all 65536 PCI class ids through hwloc_obj_attr_snprintf (256 ids per line)"""
+    return ["clsweep %d %d" % (k * 256, k * 256 + 256) for k in range(256)]
+
+
+TIER_WORDS = ["DRAM", "HBM", "GPUMemory", "SPM", "NVM", "CXL-DRAM", "CXL-HBM", "CXL-GPUMemory", "CXL-SPM", "CXL-NVM",
+              "CXL", "CXL-", "GPU", "Memory", "none", "NVDIMM", "DRAM ", " DRAM", "CXL_DRAM", "CXL-DRAM-HBM", "HBM=DRAM", "=HBM", "0x2=HBM"]
+
+
+def tier_cases(rng, tier):
+    out = []
+    for w in TIER_WORDS:
+        out += [w, w.lower(), w.upper(), randcase(rng, w), w + "x", w[:-1], w + "\xe0", w + " "]
+    for _ in range(60 if tier == "quick" else 1500):
+        w = rng.choice(TIER_WORDS[:10])
+        r = rng.random()
+        if r < 0.4:
+            w = randcase(rng, w)
+        elif r < 0.6:
+            w = w[:rng.randrange(0, len(w) + 1)] + rng.choice(["", "-", "x", "\xff", "\x01"])
+        elif r < 0.8:
+            i = rng.randrange(0, len(w)); w = w[:i] + rng.choice("xX-_ \x80\xdf") + w[i + 1:]
+        else:
+            w = "".join(chr(rng.choice(HOSTILE)) for _ in range(rng.randrange(0, 8)))
+        out.append(w)
+    res, seen = [], set()
+    for w in out:
+        b = w.encode("latin-1").split(b"\0")[0].split(b";")[0]      # ';' separates forced tiers in the variable
+        if b not in seen:
+            seen.add(b); res.append("tier %s" % hx(b))
+    return res
+
+
+LV_SYNTHETIC = ["pack:2 l3:1 l2:2 l1d:1 l1i:1 core:1 pu:2", "group:2 group:2 pack:1 core:2 pu:1", "group:2 node:2 group:2 group:3 pu:2",
+                "pu:3", "pack:1 die:2 l5:1 l4:1 l3:1 l3i:1 l2:1 l2i:1 l1:1 l1i:1 core:1 pu:1", "group:2 pack:2 group:2 l2:1 group:2 core:2 pu:1"]
+
+
+def lv_sources(repo, corpus):
+    import glob, os
+    xs = sorted(glob.glob(os.path.join(repo, "tests/hwloc/xml/*.xml"))) + sorted(glob.glob(os.path.join(corpus, "*.xml")))
+    return ["synthetic_" + d.replace(" ", "_") for d in LV_SYNTHETIC] + ["xml_" + x for x in xs if " " not in x]
+
+
+def depth_cases(rng, tier, lvline):
+    """from one `lv` answer: (sad/gtd case lines, expectations {case: (type, depth)} for the level texts)"""
+    f = lvline.split()
+    src = f[1]
+    kv = dict(x.split("=", 1) for x in f[2:])
+    levels, tdepths, texts = kv["levels"], kv["tdepths"], kv["texts"].split(",")
+    lv = [tuple(int(y) for y in x.split(":")) for x in levels.split(",")]
+    cases, expect = [], {}
+    for l, pair in enumerate(texts):
+        for h in pair.split("/"):
+            c = "sad %s %s %s %s" % (src, levels, tdepths, h)
+            cases.append(c); expect[c] = (lv[l][0], l)
+    gds = sorted(set(g for t, g in lv if t == T_GROUP)) + [0, 1, 7, UINT_MAX - 1, UINT_MAX]
+    words = ["Group", "group", "Group%d" % UINT_MAX, "Group4294967296", "Machine", "PU", "Core", "L2", "L2Cache", "L1i", "L9", "NUMANode", "PCI", "OS[Net]", "OSDev",
+             "Bridge", "HostBridge", "Misc", "MemCache", "Package", "Die", "nothing", "", "L", "gr", "pu:3"]
+    words += ["Group%d" % g for g in gds] + ["group%d" % rng.randrange(0, 50) for _ in range(4)]
+    for w in words:
+        cases.append("sad %s %s %s %s" % (src, levels, tdepths, hx(w)))
+    types = list(range(20)) + [20, 77, UINT_MAX]
+    for t in types:
+        cases.append("gtd %s %s %s %d - 48" % (src, levels, tdepths, t))
+    for g in gds:
+        for asz in (0, 16, 47, 48, 64):
+            cases.append("gtd %s %s %s %d %d %d" % (src, levels, tdepths, T_GROUP, g, asz))
+        cases.append("gtd %s %s %s %d %d 48" % (src, levels, tdepths, rng.choice([0, 3, 5, 14, 16]), g))
+    return cases, expect
